@@ -34,7 +34,7 @@ def run(ctx):
     impl = build_impl()
     base = pick_cases(ctx)
     exhaustive_upto = 6 if ctx.tier == "quick" else 8
-    budget = 40000 if ctx.tier == "quick" else 600000
+    budget = 40000 if ctx.tier == "quick" else 300000
     triples0, skipped, invalid_pairs = exec_triples(impl, base)
     points = [int(x) for x in run_family(model, "exec_points", [t[1] for t in triples0])]
     # schedules
